@@ -18,7 +18,8 @@ RULE = ("state types positive/complex/mixed, nv 1..5 in both tiers (quick: fewer
         "the mixture in harness/gen.py plus a large-bias regime (|b| up to 30, 25 % of the draws) written into live QuCumber objects; the basis is "
         "enumerated independently of the code under test; for every state: SigmaX/Y/Z with absolute off/on and "
         "NeighbourInteraction for c = 1..n and both boundary conditions, applied to all 2^n basis states (weighted exactly by "
-        "probability/Z) and to a random batch with repeats; a case is (state type, sizes, parameter draw); "
+        "probability/Z), to a random batch with repeats, to a single row, to non-contiguous (strided) double tensors and to a random batch "
+        "of ~2500 rows, and (first nv = 2 or 3 state of every state type, every observable) to a batch of 20001..26000 rows of odd length; a case is (state type, sizes, parameter draw); "
         "non-trivial := all biases non-zero and (state is positive or its phase network is non-zero)")
 ASSUMPTIONS = ["torch elementwise kernels implement the real functions up to rounding",
                "states with |effective energy| > 300 are skipped (double overflow in |psi|^2 products), counted as skipped_overflow"]
@@ -179,7 +180,13 @@ def state_matrices(ctx, s, kind, space, case):
     return rho, p.numpy().astype(float)
 
 
-def check_state(ctx, kind, nv, nh, na, params, with_model=True):
+def very_long_done(ctx):
+    if not hasattr(ctx, "_very_long_done"):
+        ctx._very_long_done = set()
+    return ctx._very_long_done
+
+
+def check_state(ctx, kind, nv, nh, na, params, with_model=True, very_long=False):
     import torch
     from qucumber.observables import SigmaX, SigmaY, SigmaZ, NeighbourInteraction
     case = {"state": kind, "nv": nv, "nh": nh, "na": na, "params": params}
@@ -191,6 +198,8 @@ def check_state(ctx, kind, nv, nh, na, params, with_model=True):
     ctx.case({"state": kind, "nv": nv, "nh": nh, "na": na, "am0": params["am"][0][0][0], "b0": params["am"][-2][0]},
              nontrivial=nontrivial(kind, params))
     ctx.count("state:" + kind); ctx.count("nv:%d" % nv)
+    if very_long:
+        very_long_done(ctx).add(kind)
     sm = state_matrices(ctx, s, kind, space, case)
     if sm is None:
         return
@@ -237,6 +246,33 @@ def check_state(ctx, kind, nv, nh, na, params, with_model=True):
         ctx.require(what + ": sum_s p(s)/Z * apply(s) == Re tr(rho Op)", abs(got - want) <= 1e-8 + 1e-7 * abs(want),
                     dict(case, observable=what), {"estimator_mean": got, "trace": want})
 
+    def variants(O, name, out, sc, with_long):
+        """The same observable on other sample tensors: a single row, non-contiguous (strided) views, and a batch of
+        ~2500 rows (longer than any plausible internal chunk, not a round number).  Only what the property states is
+        required: one real per row, tensor unchanged, each row's value is the per-sample value of that basis state."""
+        take = lambda r: space[torch.tensor(r, dtype=torch.long)].clone()
+        rng = ctx.rng
+        B = int(rng.integers(3, 8))
+        vs = [("single-row batch", rng.integers(0, N, size=1), take),
+              ("non-contiguous batch (column-major storage)", rng.integers(0, N, size=B), lambda r: take(r).t().contiguous().t()),
+              ("non-contiguous batch (every second row of a larger tensor)", rng.integers(0, N, size=B),
+               lambda r: torch.stack([take(r), 1 - take(r)], 1).reshape(2 * len(r), n)[::2])]
+        if with_long:
+            vs.append(("long random batch", rng.integers(0, N, size=int(rng.integers(2300, 2700)) | 1), take))
+        if very_long:
+            # > 20000 rows, odd length, cycling through the basis from a random offset
+            Bv = 20001 + 2 * int(rng.integers(0, 3000))
+            vs.append(("very long batch", (int(rng.integers(0, N)) + np.arange(Bv)) % N, take))
+        for vname, ridx, mk in vs:
+            ctx.count("batch:" + vname.split(" (")[0])
+            ov = run_apply(O, "%s on a %s" % (name, vname), mk(ridx))
+            if ov is None:
+                continue
+            rows = ridx.tolist() if len(ridx) <= 8 else "%d rows" % len(ridx)
+            ctx.require(name + ": value of a row does not depend on the rest of the batch",
+                        bool(np.allclose(ov / sc[ridx], out[ridx] / sc[ridx], rtol=1e-9, atol=1e-12)),
+                        dict(case, observable=name, batch=vname, rows=rows))
+
     paulis = [("SigmaX", SigmaX, PX, 0), ("SigmaY", SigmaY, PY, 1), ("SigmaZ", SigmaZ, PZ, 2)]
     batch_idx = ctx.rng.integers(0, N, size=5)
     batch = space[torch.tensor(batch_idx, dtype=torch.long)].clone()
@@ -258,7 +294,11 @@ def check_state(ctx, kind, nv, nh, na, params, with_model=True):
         if ob is not None:
             ctx.require(name + ": value of a row does not depend on the rest of the batch",
                         bool(np.allclose(ob / sc[batch_idx], out[batch_idx] / sc[batch_idx], rtol=1e-9, atol=1e-12)), dict(case, observable=name, batch=batch_idx.tolist()))
+        variants(cls(absolute=False), name, out, sc, with_long=True)
+        if out_abs is not None:
+            variants(cls(absolute=True), name + "(absolute)", out_abs, sc, with_long=False)
     for pbc in (False, True):
+        c_long = int(ctx.rng.integers(1, n + 1))
         for c in range(1, n + 1):
             name = "NeighbourInteraction(pbc=%s,c=%d)" % (pbc, c)
             out = run_apply(NeighbourInteraction(periodic_bcs=pbc, c=c), name, space.clone())
@@ -267,6 +307,7 @@ def check_state(ctx, kind, nv, nh, na, params, with_model=True):
             oracle(name, out, zz_op(n, c, pbc))
             if m:
                 ctx.agree(name + " per-sample value", out, m.call("obs_neighbour", 1 if pbc else 0, c, sp), dict(case, observable=name), scale=1.0)
+            variants(NeighbourInteraction(periodic_bcs=pbc, c=c), name, out, np.ones(N), with_long=(c == c_long))
             ctx.count("neighbour")
 
     # importance-sampling numerator / denominator / weight against the model and against the matrix
@@ -301,7 +342,8 @@ def run(ctx):
                 nh = int(ctx.rng.integers(1, nv + 2))
                 na = int(ctx.rng.integers(1, nv + 2)) if kind == "mixed" else 0
                 params = draw(ctx, kind, nv, nh, na)
-                check_state(ctx, kind, nv, nh, na, params)
+                # the > 20000-row batch: first state of every type with nv in (2, 3) that is not skipped for overflow
+                check_state(ctx, kind, nv, nh, na, params, very_long=(nv in (2, 3) and kind not in very_long_done(ctx)))
     # table-fed model: the observable layer alone, on the implementation's own psi / rho values
     table_cases(ctx)
 
@@ -364,6 +406,6 @@ def replay(ctx, rec):
         print("replay: no stored case; re-running the generated cases")
         return run(ctx)
     print("replay of", case.get("state"), "nv", case.get("nv"), "nh", case.get("nh"), "observable", case.get("observable"))
-    check_state(ctx, case["state"], case["nv"], case["nh"], case.get("na", 0), case["params"])
+    check_state(ctx, case["state"], case["nv"], case["nh"], case.get("na", 0), case["params"], very_long=True)
     for f in ctx.failures[:5]:
         print("  fails:", f["what"], f["detail"][:200])
